@@ -920,18 +920,14 @@ impl DhtCoreEngine {
             "Selected storage targets"
         );
 
-        // Store locally if we're one of the selected nodes or if no nodes are available (test/single-node mode)
-        if selected_nodes.contains(&self.node_id) || selected_nodes.is_empty() {
+        // The local node always keeps a copy. Callers report this node as a holder of the
+        // value (the local side of a network put, the replica side of a PUT request), and
+        // the local node is never part of its own routing table, so it is never among the
+        // selected nodes: storing only "if selected" dropped the value as soon as one peer
+        // was known while still acknowledging the store.
+        {
             let mut store = self.data_store.write().await;
-            // Avoid unnecessary clone of value: key is cloned for ownership, value is consumed by this branch
             store.put(key.clone(), value);
-            // Return early since we've consumed value
-            return Ok(StoreReceipt {
-                key: key.clone(),
-                stored_at: selected_nodes,
-                timestamp: SystemTime::now(),
-                success: true,
-            });
         }
 
         Ok(StoreReceipt {
